@@ -226,6 +226,17 @@ func genC10(t *core.Tape, tier string) *Scenario {
 		} else {
 			sc.Notes["mode_client_deadline"]++
 			p.Deadline = genDuration(t, sc.Notes)
+			if t.Bool(1, 3, "deadline.from.interceptor") {
+				// the deadline the call runs under is set by a client interceptor
+				// (default-timeout interceptor); the caller's own context has none
+				// or a longer one
+				sc.Clients[0].DeadlineIcpt = true
+				p.InterceptDeadline = true
+				if t.Bool(1, 2, "caller.has.longer.deadline") && p.Deadline < 1<<61 {
+					p.CallerDeadline = p.Deadline*time.Duration(2+t.Choose(3, "caller.factor")) + time.Duration(t.Choose(1000, "caller.extra"))*time.Millisecond
+				}
+				sc.Notes["deadline_from_interceptor"]++
+			}
 		}
 	}
 	genYield(t, p)
